@@ -115,7 +115,7 @@ def c13(prop, tier, replay):
             for attempt in range(4):
                 path = os.path.join(work, "replay-%d.ndjson" % attempt)
                 p = vf.run([exe] + rp["recorder_args"] + ["-out", path], timeout=1800, check=False)
-                if "DATA RACE" in p.stderr:
+                if "DATA RACE" in p.stderr or (p.returncode != 0 and vf.panic_in_engine(p.stderr)):
                     print("VIOLATION property=C13 replay=%s" % replay)
                     return 1
                 if p.returncode != 0:
@@ -167,6 +167,9 @@ def c13(prop, tier, replay):
             path = os.path.join(work, "uci-%d.ndjson" % i)
             p = vf.run([race_exe if race else bins["rec-uci"]] + args + ["-out", path], timeout=3000, check=False)
             racy = "DATA RACE" in p.stderr
+            if p.returncode != 0 and not racy and vf.panic_in_engine(p.stderr):
+                # the driver (or the search it runs) crashed the process: the property says it never crashes
+                return dict(i=i, race=race, args=args, racy="PROCESS DIED: " + p.stderr[-2500:], viol=[], infra=[], states=0, trans=0, ids=[], acc=set(), evs=[])
             if p.returncode != 0 and not racy:
                 raise vf.Infra("rec-uci failed (%d): %s" % (p.returncode, p.stderr[-2500:]))
             if racy:
@@ -185,7 +188,7 @@ def c13(prop, tier, replay):
                 nviol += 1
                 if len(paths) < 6:
                     paths.append(vf.write_replay(prop, "data-race-%d" % o["i"], {"property": prop, "kind": "uci-scenarios", "race": True, "recorder_args": o["args"],
-                                                                                "rejected": {"rule": "C13/data-race", "report": o["racy"]}}))
+                                                                                "rejected": {"rule": "C13/driver-crashed" if o["racy"].startswith("PROCESS DIED") else "C13/data-race", "report": o["racy"]}}))
             for (rule, t, stuck) in o["viol"]:
                 nviol += 1
                 if len(paths) < 6:
